@@ -239,11 +239,16 @@ func verifyFunc(L *Loaded, fn *ssa.Function, fc *FuncContract) (res *FuncResult)
 			return
 		}
 		e := &Env{ex: ex, st: s, vars: map[string]tv{}, in: "element read"}
-		if o.Seq.allWF != nil {
-			// assumed (not proved): nested universal facts of the element (allwf of its own lists) are recorded too
-			g := ULt(idx, o.Seq.allWF)
+		var preds []string
+		for pn := range o.Seq.allWF {
+			preds = append(preds, pn)
+		}
+		sort.Strings(preds)
+		for _, pn := range preds {
+			// assumed (not proved): nested universal facts of the element (all<pred> of its own lists) are recorded too
+			g := ULt(idx, o.Seq.allWF[pn])
 			e.assuming, e.guard = true, g
-			s.assume(Implies(g, e.wfOf(v, o.Seq.elemT)))
+			s.assume(Implies(g, e.predOf(pn, v, o.Seq.elemT)))
 		}
 		if ln, ok := sumSeqs[o.Seq.id]; ok {
 			e.sumTerm(VSlice{Obj: o.ID, Off: Const(64, 0), Len: ln, Cap: ln}, o.Seq.elemT, Add(idx, Const(64, 1)))
